@@ -293,3 +293,33 @@ func collect(v resp.Value, out *[]string) {
 		*out = append(*out, t)
 	}
 }
+
+func init() {
+	// F-C17-zunionstore-destination-in-sources: the destination is removed from the operand list.
+	Register("F-C17-zunionstore-destination-in-sources", func(c *Ctx, d *Deviation) bool {
+		if len(c.Cmd) < 3 || !strings.EqualFold(c.Cmd[0], "ZUNIONSTORE") {
+			return false
+		}
+		dst := c.Cmd[1]
+		among := false
+		for _, a := range c.Cmd[2:] {
+			u := strings.ToUpper(a)
+			if u == "WEIGHTS" || u == "AGGREGATE" || u == "WITHSCORES" {
+				break
+			}
+			if a == dst {
+				among = true
+			}
+		}
+		if !among {
+			return false
+		}
+		switch d.Kind {
+		case "reply":
+			return true
+		case "state":
+			return d.Diff.Key == dst
+		}
+		return false
+	})
+}
